@@ -57,12 +57,15 @@ K_UDP_PROTO = dict(
     unit='udp_proto', package='aquatic_udp_protocol',
     inject=[(_UP + 'request.rs', 'request_harness.rs')],
     harnesses=[
-        dict(name='request::verif_kani::parse_connect_announce', complete=True, timeout=900,
+        dict(name='request::verif_kani::parse_write_connect', complete=True, timeout=600,
+             tags=['C13.req.connect.fields', 'C13.req.connect.accept', 'C13.req.connect.reject', 'C13.req.connect.write', 'C13.req.connect.roundtrip', 'C12.udp_proto.request_parse_connect'],
+             functions=['Request::parse_bytes (connect)', 'ConnectRequest::write_bytes']),
+        dict(name='request::verif_kani::parse_connect_announce', complete=True, timeout=1500, tier='thorough',
              tags=['C13.req.short', 'C13.req.connect.fields', 'C13.req.connect.accept', 'C13.req.connect.reject', 'C13.req.announce.reject',
                    'C13.req.announce.port0', 'C13.req.announce.event', 'C13.req.announce.fields', 'C13.req.announce.accept', 'C13.req.unknown_action',
                    'C12.udp_proto.request_parse_128'],
              functions=['Request::parse_bytes (connect, announce, unknown action; all datagrams <= 128 bytes)']),
-        dict(name='request::verif_kani::parse_scrape_small', complete=False, bound='<= 4 hashes + ragged tails', timeout=900,
+        dict(name='request::verif_kani::parse_scrape_small', complete=False, bound='<= 4 hashes + ragged tails', timeout=2400, tier='thorough',
              tags=['C13.req.scrape.short', 'C13.req.scrape.bad_list', 'C13.req.scrape.truncation', 'C13.req.scrape.fields', 'C13.req.scrape.order',
                    'C13.req.scrape.accept', 'C06.parse.scrape_truncation', 'C06.parse.scrape_order'],
              functions=['Request::parse_bytes (scrape)']),
@@ -70,10 +73,10 @@ K_UDP_PROTO = dict(
              tags=['C13.req.scrape.truncation_any_len', 'C13.req.scrape.order_any_len', 'C13.req.scrape.accept_any_len',
                    'C06.parse.scrape_truncation_any_len', 'C06.parse.scrape_order_any_len'],
              functions=['Request::parse_bytes (scrape, every well-formed datagram <= 8192 bytes)']),
-        dict(name='request::verif_kani::write_connect_announce', complete=True, timeout=900,
+        dict(name='request::verif_kani::write_connect_announce', complete=True, timeout=1500, tier='thorough',
              tags=['C13.req.connect.write', 'C13.req.connect.roundtrip', 'C13.req.announce.write', 'C13.req.announce.roundtrip'],
              functions=['ConnectRequest::write_bytes', 'AnnounceRequest::write_bytes']),
-        dict(name='request::verif_kani::write_scrape', complete=False, bound='<= 2 hashes', timeout=900,
+        dict(name='request::verif_kani::write_scrape', complete=False, bound='<= 2 hashes', timeout=2400, tier='thorough',
              tags=['C13.req.scrape.write', 'C13.req.scrape.roundtrip'], functions=['ScrapeRequest::write_bytes']),
     ],
 )
@@ -84,7 +87,7 @@ K_UDP_SWARM = dict(
     inject=[('crates/udp/src/swarm.rs', 'swarm_harness.rs')],
     replace=[('crates/common/Cargo.toml', 'indexmap = "2"', 'indexmap = { package = "indexmap_model", path = "/verif/models/indexmap_model" }')],
     harnesses=[
-        dict(name='swarm::verif_kani::small_insert_etc_v4', complete=True, timeout=900,
+        dict(name='swarm::verif_kani::small_insert_etc_v4', tier='thorough', complete=True, timeout=900,
              tags=['C01.udp.small.is_full', 'C01.udp.small.nsl', 'C01.udp.small.insert', 'C02.udp.small.extract.len', 'C02.udp.small.extract.keys'],
              functions=['SmallPeerMap::{is_full,num_seeders_leechers,insert,extract_response_peers}']),
         dict(name='swarm::verif_kani::small_remove_v4', complete=True, timeout=1500, tier='thorough',
@@ -94,22 +97,22 @@ K_UDP_SWARM = dict(
         dict(name='swarm::verif_kani::small_insert_etc_v6', complete=True, timeout=1500, tier='thorough',
              tags=['C01.udp.small.is_full', 'C01.udp.small.nsl', 'C01.udp.small.insert', 'C02.udp.small.extract.len', 'C02.udp.small.extract.keys'],
              functions=['SmallPeerMap::* (IPv6)']),
-        dict(name='swarm::verif_kani::small_clean_v4', complete=True, timeout=900,
+        dict(name='swarm::verif_kani::small_clean_v4', tier='thorough', complete=True, timeout=900,
              tags=['C10.udp.small.clean.keeps_unexpired', 'C10.udp.small.clean.removes_expired', 'C01.udp.small.clean.counts', 'C20.udp.small.clean.counts', 'C20.udp.small.clean.no_msgs_when_off'],
              functions=['SmallPeerMap::clean_and_get_num_peers']),
-        dict(name='swarm::verif_kani::small_to_large_v4', complete=True, timeout=900,
+        dict(name='swarm::verif_kani::small_to_large_v4', tier='thorough', complete=True, timeout=900,
              tags=['C01.udp.small.to_large.same_entries', 'C01.udp.small.to_large.num_seeders'], functions=['SmallPeerMap::to_large']),
-        dict(name='swarm::verif_kani::large_clean_v4_3', complete=False, bound='heap map <= 3 entries', timeout=900,
+        dict(name='swarm::verif_kani::large_clean_v4_3', tier='thorough', complete=False, bound='heap map <= 3 entries', timeout=900,
              tags=['C10.udp.large.clean.keeps_unexpired', 'C10.udp.large.clean.removes_expired', 'C01.udp.large.clean.wf', 'C01.udp.large.clean.counts', 'C20.udp.large.clean.counts'],
              functions=['LargePeerMap::clean_and_get_num_peers']),
         dict(name='swarm::verif_kani::large_clean_v4_5', complete=False, bound='heap map <= 5 entries', timeout=2400, tier='thorough',
              tags=['C10.udp.large.clean.keeps_unexpired', 'C10.udp.large.clean.removes_expired', 'C01.udp.large.clean.wf', 'C01.udp.large.clean.counts', 'C20.udp.large.clean.counts'],
              functions=['LargePeerMap::clean_and_get_num_peers']),
-        dict(name='swarm::verif_kani::tally_announce_small_v4', complete=True, timeout=2400,
+        dict(name='swarm::verif_kani::tally_announce_small_v4', tier='thorough', complete=True, timeout=2400,
              tags=['C20.tally.announce.new_key', 'C20.tally.announce.same_id', 'C20.tally.announce.stop_other_id', 'C20.tally.announce.id_change'],
              functions=['PeerMap::announce (statistics messages, inline map)'], playback_optional=True,
              no_playback='Sender::try_send is replaced by a recorder (no native counterpart); the finding is demonstrated by findings/D4/demo.diff'),
-        dict(name='swarm::verif_kani::large_try_shrink_v4_4', complete=False, bound='heap map <= 4 entries', timeout=900,
+        dict(name='swarm::verif_kani::large_try_shrink_v4_4', tier='thorough', complete=False, bound='heap map <= 4 entries', timeout=900,
              tags=['C01.udp.large.try_shrink.iff_fits', 'C01.udp.large.try_shrink.self_unchanged', 'C01.udp.large.try_shrink.same_entries'],
              functions=['LargePeerMap::try_shrink']),
     ],
@@ -119,10 +122,13 @@ K_WS_PROTO = dict(
     unit='ws_proto', package='aquatic_ws_protocol',
     inject=[('crates/ws_protocol/src/common.rs', 'common_harness.rs')],
     harnesses=[
-        dict(name='common::verif_kani::visit_str_exact', complete=False, bound='strings of <= 21 chars from U+0000..U+00FF plus a 256-char window above', timeout=1200,
+        dict(name='common::verif_kani::visit_str_ascii_len', complete=False, bound='ASCII strings of <= 21 chars', timeout=900,
+             tags=['C15.ident.too_short', 'C15.ident.too_long', 'C15.ident.value', 'C15.ident.accept', 'C12.ws_proto.visit_str_ascii'],
+             functions=['TwentyByteVisitor::visit_str']),
+        dict(name='common::verif_kani::visit_str_exact', complete=False, bound='strings of <= 21 chars from U+0000..U+00FF plus a 256-char window above', timeout=1800, tier='thorough',
              tags=['C15.ident.too_short', 'C15.ident.too_long', 'C15.ident.out_of_range', 'C15.ident.value', 'C15.ident.accept', 'C12.ws_proto.visit_str'],
              functions=['TwentyByteVisitor::visit_str']),
-        dict(name='common::verif_kani::serialize_exact_and_roundtrip', complete=True, timeout=1200,
+        dict(name='common::verif_kani::serialize_exact_and_roundtrip', complete=True, timeout=1800, tier='thorough',
              tags=['C15.ident.encode.ok', 'C15.ident.encode.chars', 'C15.ident.encode.len', 'C15.ident.roundtrip'],
              functions=['serialize_20_bytes', 'TwentyByteVisitor::visit_str']),
     ],
@@ -131,9 +137,11 @@ K_HTTP_PROTO = dict(
     unit='http_proto', package='aquatic_http_protocol',
     inject=[('crates/http_protocol/src/utils.rs', 'utils_harness.rs')],
     harnesses=[
-        dict(name='utils::verif_kani::urlencode_exact_and_roundtrip', complete=True, timeout=1200,
+        dict(name='utils::verif_kani::urlencode_layout', complete=True, timeout=600,
+             tags=['C14.ident.encode.len', 'C14.ident.encode.layout'], functions=['urlencode_20_bytes']),
+        dict(name='utils::verif_kani::urlencode_exact_and_roundtrip', complete=True, timeout=2400, tier='thorough',
              tags=['C14.ident.encode.len', 'C14.ident.encode.layout', 'C14.ident.roundtrip'], functions=['urlencode_20_bytes', 'urldecode_20_bytes']),
-        dict(name='utils::verif_kani::urldecode_exact', complete=False, bound='<= 21 units of ASCII (plain or %xx)', timeout=1800,
+        dict(name='utils::verif_kani::urldecode_exact', complete=False, bound='<= 21 units of ASCII (plain or %xx)', timeout=2400, tier='thorough',
              tags=['C14.ident.decode.exactly_20', 'C14.ident.decode.bad_hex', 'C14.ident.decode.value', 'C14.ident.decode.accept', 'C12.http_proto.urldecode'],
              functions=['urldecode_20_bytes']),
     ],
@@ -157,7 +165,7 @@ K_HTTP_SWARM = dict(
              tags=['C10.http.large.clean.keeps_unexpired', 'C10.http.large.clean.removes_expired', 'C07.http.large.clean.wf',
                    'C07.http.large.try_shrink.iff_fits', 'C07.http.large.try_shrink.same_entries'],
              functions=['http LargePeerMap::{clean_and_get_num_peers,try_shrink}']),
-        dict(name='storage::verif_kani::scrape_first_max_each_once', complete=False, bound='2 stored torrents x <= 2 peers, <= 4 requested hashes out of 4', timeout=2400,
+        dict(name='storage::verif_kani::scrape_first_max_each_once', tier='thorough', complete=False, bound='2 stored torrents x <= 2 peers, <= 4 requested hashes out of 4', timeout=2400,
              tags=['C07.http.scrape.only_first_max', 'C07.http.scrape.counts', 'C07.http.scrape.each_requested_once'],
              functions=['http TorrentMap::handle_scrape_request']),
     ],
